@@ -29,8 +29,15 @@
     or a later line, ')' also on a line of its own), any number of extra EOL tokens (blank lines, comment
     lines, trailing comments) at every line end, statements after the first of a block at any column that
     is not left of the block and left of what the previous statement left open.
-    Outside (c) (modelled by parse_blocks, exercised by the harness, not proved): parenthesised
-    sub-expressions and tuples, record/slice literals, let destructuring, type
+    Also covered: parenthesised expressions and tuples (a lambda, an if, a match or any block-ending expression
+    as the last element, ')' then also on a line of its own), slice literals and record literals (elements /
+    field values of any form; the ';' or the closing token after an element that ends with a block stands on a
+    later line left of that block; a record field may be broken after its name and after '='; nothing else may
+    be broken: fc skips no EOL after the opening token or a separator), (), destructuring lets, and at the root:
+    package / import lines, union definitions (cases at any column: they are not tested against the offside
+    line) and package_info blocks (their definitions form an offside block).
+    Outside (c) (modelled by parse_blocks, exercised by the harness, not proved): record type definitions
+    with fields on several lines, specified record initializers (rec.X = e), record/slice literals, let destructuring, type
     definitions and package/import lines, and distinct columns for the tokens that are neither first on
     their line nor the first token of a same-line body (they share one arbitrary column [inner]).
 
@@ -136,6 +143,20 @@ Example C06_example_if_three_layouts :
   parse_blocks 200 (r_prog 30 ex_if_one_line) = Ok (er_prog ex_if_multi) /\
   parse_blocks 200 (r_prog 30 ex_if_mixed) = Ok (er_prog ex_if_multi).
 Proof. exact if_three_layouts. Qed.
+
+Example C06_example_groups :
+  wf_prog None (ex_groups true 7) /\ wf_prog None (ex_groups false 40) /\
+  er_prog (ex_groups true 7) = er_prog (ex_groups false 40) /\
+  parse_blocks 400 (r_prog 0 (ex_groups true 7)) = Ok (er_prog (ex_groups true 7)) /\
+  parse_blocks 400 (r_prog 50 (ex_groups false 40)) = Ok (er_prog (ex_groups true 7)).
+Proof. exact groups_two_layouts. Qed.
+
+Example C06_example_roots :
+  wf_prog None (ex_roots 0 2 2) /\ wf_prog None (ex_roots 3 9 7) /\
+  er_prog (ex_roots 0 2 2) = er_prog (ex_roots 3 9 7) /\
+  parse_blocks 400 (r_prog 0 (ex_roots 0 2 2)) = Ok (er_prog (ex_roots 0 2 2)) /\
+  parse_blocks 400 (r_prog 33 (ex_roots 3 9 7)) = Ok (er_prog (ex_roots 0 2 2)).
+Proof. exact roots_two_layouts. Qed.
 
 Example C06_example_dedent :
   (exists t, parse_blocks 200 ded_ok = Ok t) /\ parse_blocks 200 ded_bad = Reject.
